@@ -272,6 +272,9 @@ type Parts struct {
 	Time        float64 // when !HasComps
 	HasComps    bool
 	H, M, S, Ms float64
+	// Shift is the local time zone adjustment LocalTZA (ms) when the composition was made in local
+	// time: the result is UTC(x) = x − LocalTZA (15.9.1.9 without daylight saving). 0 for UTC operations.
+	Shift float64
 }
 
 // Unclipped evaluates the composition by 15.9.1.11–13 (IEEE arithmetic); apply TimeClip to the result.
@@ -283,7 +286,7 @@ func (p Parts) Unclipped() float64 {
 	if p.HasComps {
 		time = MakeTime(p.H, p.M, p.S, p.Ms)
 	}
-	return MakeDate(p.Day, time)
+	return MakeDate(p.Day, time) - p.Shift
 }
 
 // Exact reports that no intermediate of Unclipped can exceed 2^53 in magnitude, i.e. that the IEEE
@@ -304,7 +307,7 @@ func (p Parts) Exact() bool {
 	if !finite(p.Day, time) {
 		return true
 	}
-	return math.Abs(p.Day)*MsPerDay+time <= lim
+	return math.Abs(p.Day)*MsPerDay+time+math.Abs(p.Shift) <= lim
 }
 
 // FieldsParts is the composition MakeDate(MakeDay(yr, month, date), MakeTime(hours, minutes, seconds, ms))
